@@ -612,6 +612,16 @@ def emit_prog(out, name, doc, stmts):
 # ------------------------------------------------------------------------------------------------------------------
 # (a) backend_req.rs
 
+
+def _uncalled(repo, rel, name):
+    """a function whose name occurs only once in the file (its own definition) is called by nothing in it: dead code that cannot
+    change what the translated functions do"""
+    import re as _re
+    txt = open(os.path.join(repo, rel)).read()
+    txt = _re.sub(r"//[^\n]*", "", txt)
+    return len(_re.findall(r"\b%s\b" % _re.escape(name), txt)) == 1
+
+
 def gen_backend(world, repo, sizes):
     rel = REL_B
     impls, free = load_file(repo, rel)
@@ -624,7 +634,7 @@ def gen_backend(world, repo, sizes):
             raise Untranslatable(f"{rel}: unexpected `impl {t} for {y}`")
     known = ("check_state", "send_message", "wait_for_ack")
     for n in internal:
-        if n not in known:
+        if n not in known and not _uncalled(repo, rel, n):
             raise Untranslatable(f"{rel}: impl BackendInternal: unknown function `{n}`")
     for n in known:
         if n not in internal:
@@ -750,7 +760,7 @@ def gen_gpu(world, repo, sizes):
         raise Untranslatable(f"{rel}: fn io_err_convert_fn: missing or changed (expected a wrapper into `io::Error::other`)")
     known = ("check_state", "send_header", "send_message", "send_message_with_payload", "recv_reply")
     for n in internal:
-        if n not in known:
+        if n not in known and not _uncalled(repo, rel, n):
             raise Untranslatable(f"{rel}: impl BackendInternal: unknown function `{n}`")
     for n in known:
         if n not in internal:
@@ -1136,7 +1146,7 @@ def gen_fesrv(world, repo, sizes):
     elsewhere = ("handle_request", "check_attached_files")       # Gen/DispatchFe.lean
     plain = ("new", "get_tx_raw_fd", "set_reply_ack_flag", "set_failed")
     for n in fns:
-        if n not in translated and n not in elsewhere and n not in plain and n != "send_ack_message":
+        if n not in translated and n not in elsewhere and n not in plain and n != "send_ack_message" and not _uncalled(repo, rel, n):
             raise Untranslatable(f"{rel}: impl FrontendReqHandler: unknown function `{n}`")
     for n in translated + ["send_ack_message", "set_reply_ack_flag", "set_failed", "new"]:
         if n not in fns:
